@@ -115,10 +115,20 @@ func runC03(c *fw.Ctx) {
 	// ---- unary operations ----
 	for _, shape := range shapes {
 		for _, in := range c03Unary {
-			for _, class := range []int{0, 1, 2, 3, 5} {
+			for _, class := range []int{0, 1, 2, 3, 5, 7} {
 				shape, in, class := shape, in, class
 				c.Case(func(k *fw.K) {
 					x, cname := valueClass(k.Rng, class, shape)
+					if class == 7 {
+						// arguments that are special for SOME function: exact doubles at multiples of pi/2, the edges of Exp's range,
+						// 1, -1, values whose square / cube sits at the edge of the range (finite inputs, finite or IEEE-defined results)
+						x, cname = Shuffled(k.Rng, Unique(k.Rng, shape, 0.1, 3)), "special-arguments"
+						sp := []float64{math.Pi / 2, -math.Pi / 2, 3 * math.Pi / 2, 5 * math.Pi / 2, 7 * math.Pi / 2, math.Pi, 2 * math.Pi, math.Pi / 4,
+							709.782712893384, -745.1332191019411, 710, -746, 1, -1, 88.72283905206835, 1e-8, 1.3407807929942596e154, 5.6438030941222897e102, math.E, math.Ln2}
+						for i := range x.Data {
+							x.Data[i] = sp[k.Rng.Intn(len(sp))]
+						}
+					}
 					k.Case = fcase{In: in, Ops: []*ref.T{x}, Tag: cname}
 					if len(x.Data) >= 2 {
 						k.Key("%s/%g/%s/%s", in.Op, in.F, shapeKey(shape), cname)
